@@ -148,6 +148,21 @@ def groups(tier, seed):
                 for m in (None, 'dfs'):
                     cs.append({'roots': [['sub:' + n, a, b, m] for n, (a, b) in zip(names, ws)]})
     yield {'tree': pre, 'layer': 'prefix-named-roots', 'cases': cs}
+    # roots whose bare names spell words of the query language: alone, first, last and in the middle of a list
+    kw = {n: D({n[0] + '1': F(1), 's': D({n[0] + '2': F(1)})}) for n in ('asc', 'order', 'rx', 'regexp', 'like', 'by', 'desc', 'or', 'and', 'eq', 'mul', 'ASC', 'Order', 'group', 'not',
+                                                                         'between', 'minus', 'depth', 'dfs')}
+    kw['plain'] = D({'p1': F(1)})
+    cs = []
+    for n in sorted(kw):
+        if n == 'plain':
+            continue
+        for m in (None, 'dfs'):
+            for (a, b) in ((None, None), (None, 1), (2, None)):
+                cs.append({'roots': [['bare:' + n, a, b, m]]})
+                cs.append({'roots': [['bare:plain', None, None, None], ['bare:' + n, a, b, m]]})
+                cs.append({'roots': [['bare:' + n, a, b, m], ['bare:plain', None, None, None]]})
+        cs.append({'roots': [['bare:plain', None, None, None], ['bare:' + n, None, None, None], ['bare:asc' if n != 'asc' else 'bare:rx', None, None, None]]})
+    yield {'tree': kw, 'layer': 'keyword-named-roots', 'cases': cs}
     # `unless symlinks is given`: a link to a directory outside the root, whose path is a textual prefix of the root's, is descended
     for mode in (None, 'bfs', 'dfs'):
         for spelling in ('rel', 'abs'):
@@ -246,6 +261,8 @@ def root_arg(spec, holder):
         return None, 'h', ''   # filled by caller (needs a directory name)
     if r.startswith('sub:'):
         return 'real/t/' + r[4:], 'h', r[4:]
+    if r.startswith('bare:'):       # the bare name of a top-level directory, from inside the tree
+        return r[5:], 't', r[5:]
     if r == 'slash':
         return '/', 'j', ''
     raise ValueError(r)
